@@ -356,6 +356,15 @@ def select_cases(shapes, big, calls, thorough, sd, extras=True):
                     k2 = ks[rng.randrange(len(ks))]
                     sh2 = rng.choice(by_coarse[k2])
                     cases.append(Case(sh2, concrete_pre(prek, rng, False), ret, cls, False, "pressure"))
+    # 3. scalars of every width in registers and on the stack (deterministic; narrow integers alternate in sign)
+    small = [s for s in shapes if s["sig"] == "{i32,f32}"] or [shapes[0]]
+    for n, pre in enumerate((
+            ["i8", "i8", "i16", "i16", "i32", "i32"],
+            ["f32", "f64", "i8", "f32", "i16", "ptr", "i64", "i8"],
+            ["i64"] * 6 + ["i8", "i8", "i16", "i16", "i32", "i32", "ptr"],
+            ["f32"] * 8 + ["f32", "f64", "f32", "i16", "i8"])):
+        for ret in ("same", "void"):
+            cases.append(Case(small[0], list(pre), ret, ("scalars", n, ret), True, "scalars"))
     return cases
 
 
@@ -465,8 +474,11 @@ class Bundle:
             gtypes = [GT[t] for t in cs.pre] + [tn, "int64", "float64"]
 
             def vals(d, lvs):
-                sc = [widened(leaf_value(tag, "%s.p%d" % (d, i), t), t) for i, t in enumerate(ptypes)]
                 raw = [leaf_value(tag, "%s.p%d" % (d, i), t) for i, t in enumerate(ptypes)]
+                if cs.group == "scalars":       # integers alternate between negative and non-negative
+                    raw = [(v | (1 << (BITS[t] - 1))) if (t in INT_T and i % 2 == 0) else
+                           (v & ~(1 << (BITS[t] - 1))) if t in INT_T else v for i, (v, t) in enumerate(zip(raw, ptypes))]
+                sc = [widened(v, t) for v, t in zip(raw, ptypes)]
                 le = [leaf_value(tag, "%s.l%d" % (d, j), t) for j, (t, _, _) in enumerate(lvs)]
                 return sc, raw, le
 
@@ -956,6 +968,8 @@ def check(chk):
     for i in range(0, len(cases), per):
         bundles.append(Bundle(len(bundles), cases[i:i + per], cstr=cstr if i == 0 else None))
     opts = ["O0", "O2"] if thorough else ["O0"]
+    if os.environ.get("VERIF_C09_OPTS"):            # development aid, e.g. VERIF_C09_OPTS=O0,O2 with the quick case set
+        opts = os.environ["VERIF_C09_OPTS"].split(",")
     par = 4
 
     import queue
